@@ -563,7 +563,13 @@ fn mutate_instantiate(m: &mut Value, r: &mut Rng, accounts: &[String]) {
                 m["executors"] = json!(e);
             }
             10 => {
-                if r.chance(0.5) {
+                if r.chance(0.3) {
+                    // role lists much longer than usual (still a coherent configuration)
+                    let k = if r.chance(0.5) { "executors" } else { "approvers" };
+                    let mut v: Vec<String> = serde_json::from_value(m[k].clone()).unwrap_or_default();
+                    extend_long(&mut v, r);
+                    m[k] = json!(v);
+                } else if r.chance(0.5) {
                     m["approvers"] = json!([]);
                 } else {
                     // the same account listed twice in a row (still a coherent configuration)
@@ -1110,6 +1116,8 @@ fn gen_migrate(sim: &Sim, r: &mut Rng, prof: &Profile) -> Step {
             _ => {
                 if r.chance(0.15) {
                     v.push("Bad-Addr".into())
+                } else if r.chance(0.2) {
+                    extend_long(&mut v, r)
                 }
             }
         }
@@ -1286,7 +1294,14 @@ fn decide(
             let mut id = r.uuid();
             let mut funds = if restricted(sim, &base) { vec![] } else { vec![CoinS::new(size, &base)] };
             if r.chance(prof.p_mutate) {
-                match r.below(16) {
+                match r.below(18) {
+                    16 => {
+                        // a base one edit away from a listed one, escrowed in that very denomination
+                        let from = if !cfg.convertibles.is_empty() && r.chance(0.7) { r.pick(&cfg.convertibles).clone() } else { cfg.base_denom.clone() };
+                        base = near_miss_denom(&from, r);
+                        funds = if restricted(sim, &base) { vec![] } else { vec![CoinS::new(size, &base)] };
+                    }
+                    17 => quote = near_miss_denom(&quote, r),
                     0 => funds = vec![CoinS::new(size + 1, &base)],
                     1 => funds = vec![CoinS::new(size.saturating_sub(1).max(1), &base)],
                     2 => funds.push(CoinS::new(1, &quote)),
@@ -1348,6 +1363,7 @@ fn decide(
             }
             // sometimes aim the total at a value whose fee is within a hair of a half unit
             let mut px = px; let _ = &mut px;
+            let mut tie_aimed = false;
             if !whale && r.chance(0.12) {
                 if let Some(f) = &cfg.bid_fee {
                     if let Parsed::Ok(rt) = dec::parse(&f.rate) {
@@ -1355,7 +1371,7 @@ fn decide(
                             if mant > 0 && rt.scale <= 30 {
                                 if let Some(den) = 10u128.checked_pow(rt.scale) {
                                     // T ~ (k + 1/2) / rate
-                                    let k = r.below(40) as u128;
+                                    let k = if r.chance(0.25) { 0 } else { r.below(40) as u128 };
                                     if let Some(num) = (2 * k + 1).checked_mul(den) {
                                         let t = (num / (2 * mant)).max(1);
                                         let t = if r.chance(0.3) { t + 1 } else { t };
@@ -1365,6 +1381,7 @@ fn decide(
                                             px = Px { units, d: wg.precision };
                                             size = inc;
                                             price = px.render();
+                                            tie_aimed = true;
                                         }
                                     }
                                 }
@@ -1381,7 +1398,15 @@ fn decide(
             let mut id = r.uuid();
             let mut funds = if restricted(sim, &quote) { vec![] } else { vec![CoinS::new(total + fee_amt, &quote)] };
             if r.chance(prof.p_mutate) {
-                match r.below(20) {
+                match r.below(21) {
+                    20 => {
+                        // a quote one edit away from a traded one; escrow and fee follow it
+                        quote = near_miss_denom(&quote, r);
+                        funds = if restricted(sim, &quote) { vec![] } else { vec![CoinS::new(total + fee_amt, &quote)] };
+                        if !fee.is_null() {
+                            fee = json!({"denom": quote, "amount": fee_amt.to_string()});
+                        }
+                    }
                     0 => funds = vec![CoinS::new(total + fee_amt + 1, &quote)],
                     1 => funds = vec![CoinS::new((total + fee_amt).saturating_sub(1).max(1), &quote)],
                     2 => funds.push(CoinS::new(1, &base)),
@@ -1407,6 +1432,32 @@ fn decide(
                     17 => id = r.pick(&["", "not-a-uuid", "1234"]).to_string(),
                     18 => id = random_id(r, view, closed),
                     _ => id = if r.chance(0.5) { id.replace('-', "") } else { id.to_uppercase() },
+                }
+            }
+            if tie_aimed && r.chance(0.2) {
+                // a bidder whose own fee arithmetic rounds the other way (or who knows of no fee):
+                // fee field and escrow agree with each other, not with the configured rule
+                let unrestricted = !restricted(sim, &quote);
+                match r.below(3) {
+                    0 => {
+                        fee = Value::Null;
+                        if unrestricted {
+                            funds = vec![CoinS::new(total, &quote)];
+                        }
+                    }
+                    1 => {
+                        let f = fee_amt.saturating_sub(1);
+                        fee = if f == 0 { Value::Null } else { json!({"denom": quote, "amount": f.to_string()}) };
+                        if unrestricted {
+                            funds = vec![CoinS::new(total + f, &quote)];
+                        }
+                    }
+                    _ => {
+                        fee = json!({"denom": quote, "amount": (fee_amt + 1).to_string()});
+                        if unrestricted {
+                            funds = vec![CoinS::new(total + fee_amt + 1, &quote)];
+                        }
+                    }
                 }
             }
             let mut body = json!({"id": id, "base": base, "price": price, "quote": quote, "quote_size": quote_size.to_string(), "size": size.to_string()});
@@ -1674,6 +1725,25 @@ fn decide(
     }
 }
 
+/// a denomination one edit away from a traded one (shorter, longer, other case): not traded
+fn near_miss_denom(d: &str, r: &mut Rng) -> String {
+    let n = d.len();
+    match r.below(4) {
+        0 if n > 3 && d.is_char_boundary(1) => d[1..].to_string(),
+        1 if n > 3 && d.is_char_boundary(n - 1) => d[..n - 1].to_string(),
+        2 => d.to_uppercase(),
+        _ => format!("{}{}", r.pick(&["n", "u", "x"]), d),
+    }
+}
+
+/// a role list far longer than any the tests use (limits and caps on list lengths are a classic slip)
+fn extend_long(v: &mut Vec<String>, r: &mut Rng) {
+    let n = r.range(9, 40);
+    for i in 0..n {
+        v.push(format!("zz_extra_{:02}", i));
+    }
+}
+
 fn gen_modify(sim: &Sim, cfg: &Cfg, r: &mut Rng, accounts: &[String]) -> (String, Vec<CoinS>, Value) {
     let sender = if r.chance(0.92) { r.pick(&cfg.executors).clone() } else { r.pick(accounts).clone() };
     let mut m = json!({});
@@ -1715,6 +1785,7 @@ fn gen_modify(sim: &Sim, cfg: &Cfg, r: &mut Rng, accounts: &[String]) -> (String
                         v.push(r.pick(accounts).clone());
                     }
                 }
+                4 => extend_long(&mut v, r),
                 _ => {}
             },
         }
@@ -1735,7 +1806,13 @@ fn gen_modify(sim: &Sim, cfg: &Cfg, r: &mut Rng, accounts: &[String]) -> (String
                 0 => v = vec!["".into()],
                 1 => v = vec!["".into(), "".into()],
                 2 => v.insert(r.below(v.len() as u64 + 1) as usize, "".into()),
-                _ => v = vec![r.pick(accounts).clone(), sender.clone()],
+                _ => {
+                    if r.chance(0.4) {
+                        extend_long(&mut v, r)
+                    } else {
+                        v = vec![r.pick(accounts).clone(), sender.clone()]
+                    }
+                }
             },
         }
         m["executors"] = json!(v);
